@@ -240,7 +240,7 @@ Proof.
   unfold CircularRecord_new, CircularRecord_init_record, CircularRecord_init_fields, bio_CircularRecord_of,
     rec_annotations_dict, py_deepcopy, ann_get_topology, bio_SeqRecord_init, py_eq, PyEq_string.
   cbn [bind py_seq pr_seq mk_Seq].
-  destruct (pr_annotations r) as [t|]; cbn [bind].
+  destruct (an_topology (pr_annotations r)) as [t|]; cbn [bind].
   - destruct (String.eqb (str_lower t) "circular"); reflexivity.
   - reflexivity.
 Qed.
